@@ -85,6 +85,15 @@ type S struct { .A: i32, .B: i32, .N: In, .Arr: [3]i32, .Ns: [2]In };
 fn mk(k: i32) -> S { return { .A = k + 1, .B = k + 2, .N = { .U = k + 3, .V = k + 4 }, .Arr = [k + 5, k + 6, k + 7], .Ns = [{ .U = k + 8, .V = k + 9 }, { .U = k + 10, .V = k + 11 }] } as S; }
 """
 
+def if_style(t):
+    """how the else part of ('if', c, b1, b2, neg[, style]) is written: 'else' = `else { b2 }`, 'elif' = `else if ...` (b2 is
+    exactly one if statement; the model keeps it as SIf c b1 [SIf ...]: the checker walks a nested *hir.IfStmt exactly like
+    a block holding only that if statement, whose scope declares nothing), 'noelse' = no else part (b2 empty)"""
+    st = t[5] if len(t) > 5 else "else"
+    if st == "elif" and not (len(t[3]) == 1 and t[3][0][0] == "if"): return "else"
+    if st == "noelse" and t[3]: return "else"
+    return st
+
 def helper_src(sig):
     ps, body = [], []
     for i, ch in enumerate(sig):
@@ -155,10 +164,16 @@ def render_stmts(prog, ss, ind, out, sigs, cnt):
         elif k == "block":
             out.append(pad + "{"); render_stmts(prog, s[1], ind + 1, out, sigs, cnt); out.append(pad + "}")
         elif k == "if":
-            _, c, b1, b2, neg = s
-            cond = ("cF" if neg else "cT") if c is None else "%s %s 0" % (r_place(c), "<" if neg else ">=")
-            out.append("%sif %s {" % (pad, cond)); render_stmts(prog, b1, ind + 1, out, sigs, cnt)
-            out.append(pad + "} else {"); render_stmts(prog, b2, ind + 1, out, sigs, cnt); out.append(pad + "}")
+            def emit_if(t, head):
+                c, b1, b2, neg = t[1], t[2], t[3], t[4]
+                cond = ("cF" if neg else "cT") if c is None else "%s %s 0" % (r_place(c), "<" if neg else ">=")
+                out.append("%s %s {" % (head, cond)); render_stmts(prog, b1, ind + 1, out, sigs, cnt)
+                st = if_style(t)
+                if st == "elif": emit_if(b2[0], pad + "} else if")       # real else-if syntax: Else is a nested *hir.IfStmt
+                elif st == "noelse": out.append(pad + "}")
+                else:
+                    out.append(pad + "} else {"); render_stmts(prog, b2, ind + 1, out, sigs, cnt); out.append(pad + "}")
+            emit_if(s, pad + "if")
         elif k == "while":
             _, c, b, n = s
             cond = "%s < 2" % vname(n) + ("" if c is None else " && %s >= 0" % r_place(c))
@@ -432,6 +447,18 @@ class Gen:
         if self.rng.random() < 0.6: return c[-1]
         return self.rng.choice(c)
 
+    def gen_if(self, depth, refs, vars_, sub, chain):
+        """if / else-if chain (chain = number of else-if arms, 0..3) / plain else / no else"""
+        rng = self.rng
+        c = self.pick_place(vars_, want=("i32",)) if rng.random() < 0.5 else None
+        b1 = self.block(depth + 1, refs, vars_, sub, want_ret=rng.random() < 0.3)
+        neg = rng.random() < 0.3
+        if chain > 0:
+            return ("if", c, b1, [self.gen_if(depth, refs, vars_, rng.randint(1, 3), chain - 1)], neg, "elif")
+        if rng.random() < 0.5:
+            return ("if", c, b1, self.block(depth + 1, refs, vars_, rng.randint(0, 2)), neg, "else")
+        return ("if", c, b1, [], neg, "noelse")
+
     def block(self, depth, refs, vars_, n, top=False, want_ret=False):
         rng = self.rng; refs = list(refs); vars_ = list(vars_); out = []
         i = 0
@@ -488,10 +515,7 @@ class Gen:
                 if kind == "block":
                     out.append(("block", self.block(depth + 1, refs, vars_, sub)))
                 elif kind == "if":
-                    c = self.pick_place(vars_, want=("i32",)) if rng.random() < 0.5 else None
-                    b1 = self.block(depth + 1, refs, vars_, sub, want_ret=rng.random() < 0.3)
-                    b2 = self.block(depth + 1, refs, vars_, rng.randint(0, 2)) if rng.random() < 0.5 else []
-                    out.append(("if", c, b1, b2, rng.random() < 0.3))
+                    out.append(self.gen_if(depth, refs, vars_, sub, rng.choice([0, 1, 1, 2, 3])))
                 else:
                     c = self.pick_place(vars_, want=("i32",)) if rng.random() < 0.4 else None
                     n_ = self.ncnt; self.ncnt += 1
@@ -550,6 +574,20 @@ def scenario_programs(allow_ret_param):
     out.append(P_([("let", 0, False, A), ("if", None, [("retref", 0)], [], True)], rt={0: i32s}))
     out.append(P_([("copy", 0, XREF), ("if", None, [("retref", 0)], [], False)], rt={0: i32s}))                     # 23 return param ref
     out.append(P_([("block", [("var", 2), ("let", 0, False, (2, (("f", 0),))), ("if", None, [("retref", 0)], [], False)])], rt={0: i32s}))
+    # else-if chains: the last use of a reference lies in an else-if arm (depth 1..3), in a plain else, in a then-block
+    def chain(depth, arm, last_else=None):
+        t = ("if", None, arm if depth == 0 else [("read", B)], [] if last_else is None else last_else, True, "noelse" if last_else is None else "else")
+        if depth == 0: return t
+        inner = chain(depth - 1, arm, last_else)
+        return ("if", None, [("read", B)], [inner], True, "elif")
+    for d in (1, 2, 3):
+        out.append(P_([("let", 0, True, A), ("wt", 0, 11), ("write", A, 20), chain(d, [("wt", 0, 30)])], rt={0: i32m}))     # bad_elseif
+        out.append(P_([("let", 0, False, A), ("write", A, 20), chain(d, [("use", 0)])], rt={0: i32s}))                      # bad_shared_elseif
+        out.append(P_([("let", 0, True, A), ("read", A), chain(d, [("use", 0)])], rt={0: i32m}))
+        out.append(P_([("let", 0, True, A), ("let", 1, False, A), chain(d, [("wt", 0, 30)])], rt={0: i32m, 1: i32s}))
+        out.append(P_([("let", 0, True, A), chain(d, [("wt", 0, 30)]), ("write", A, 20), ("read", A)], rt={0: i32m}))         # good: expired after the chain
+        out.append(P_([("let", 0, True, A), ("write", A, 20), chain(d, [("read", B)], last_else=[("wt", 0, 30)])], rt={0: i32m}))  # use in the final plain else
+        out.append(P_([("let", 0, True, A), ("wt", 0, 5), ("write", A, 20), chain(d, [("read", A)])], rt={0: i32m}))          # good: really expired
     if allow_ret_param:
         out.append(P_([("if", None, [("retbor", False, (VV, ()))], [], False)]))
         out.append(P_([("let", 0, True, (VV, ())), ("if", None, [("retref", 0)], [], False)], retmut=True, rt={0: i32m}))
@@ -667,8 +705,8 @@ def subprograms(prog):
             k = s[0]
             if k == "block": rec(s[1], lambda b, i=i, s=s, ss=ss, rb=rebuild: rb(ss[:i] + [("block", b)] + ss[i + 1:]))
             elif k == "if":
-                rec(s[2], lambda b, i=i, s=s, ss=ss, rb=rebuild: rb(ss[:i] + [("if", s[1], b, s[3], s[4])] + ss[i + 1:]))
-                rec(s[3], lambda b, i=i, s=s, ss=ss, rb=rebuild: rb(ss[:i] + [("if", s[1], s[2], b, s[4])] + ss[i + 1:]))
+                rec(s[2], lambda b, i=i, s=s, ss=ss, rb=rebuild: rb(ss[:i] + [("if", s[1], b, s[3], s[4]) + tuple(s[5:])] + ss[i + 1:]))
+                rec(s[3], lambda b, i=i, s=s, ss=ss, rb=rebuild: rb(ss[:i] + [("if", s[1], s[2], b, s[4]) + tuple(s[5:])] + ss[i + 1:]))
             elif k == "while":
                 rec(s[2], lambda b, i=i, s=s, ss=ss, rb=rebuild: rb(ss[:i] + [("while", s[1], b, s[3])] + ss[i + 1:]))
     def top(b): return Prog(b, prog.retmut, prog.rtypes)
